@@ -3,10 +3,13 @@
 
    PV wire form:  {"t":"none"} {"t":"unset"} {"t":"bool","v":b} {"t":"num","v":n} {"t":"str","v":s}
                   {"t":"list","v":[pv…]} {"t":"dict","v":[[k,pv]…]} {"t":"upload","id":n}
-                  {"t":"model","dump":pv[,"json":wireJ]} {"t":"leaf"[,"json":wireJ]}        -/
+                  {"t":"model","dump":pv[,"json":wireJ]} {"t":"leaf"[,"json":wireJ]}
+   Object wire form (op "sequenceO"):  value = {"ref":address} | pv;  object = {"t":"list","v":[value…]} |
+                  {"t":"dict","v":[[k,value]…]};  Upload object = [filename, content_type, stream id]        -/
 import AriadneModel.Driver.Wire
 import AriadneModel.Model.BaseClientTree
 import AriadneModel.Model.BaseClientHeap
+import AriadneModel.Model.BaseClientObjects
 
 open Lean (Json)
 open Ariadne Ariadne.Wire Ariadne.BaseClient
@@ -83,6 +86,44 @@ def encHeap (h : Heap) : Json :=
   Json.mkObj [("hdrs", .arr (h.hdrs.map encStrPairs).toArray),
     ("vars", .arr (h.vars.map fun kvs => Json.arr (kvs.map fun (k, v) => Json.arr #[.str k, encPV v]).toArray).toArray)]
 
+
+def decVal (j : Json) : Except String Val :=
+  match j.getObjVal? "ref" with
+  | .ok a => do pure (.ref (← a.getNat?))
+  | .error _ => do pure (.imm (← decPV j))
+
+def decObj (j : Json) : Except String Obj := do
+  let t ← fieldStr j "t"
+  match t with
+  | "list" => do pure (.list (← (← (← field j "v").getArr?).toList.mapM decVal))
+  | "dict" => do
+    let items ← (← field j "v").getArr?
+    pure (.dict (← items.toList.mapM fun it => do
+      let pr ← it.getArr?
+      if h : pr.size = 2 then pure (← pr[0].getStr?, ← decVal pr[1]) else throw "object: pair expected"))
+  | _ => throw s!"object: unknown tag {t}"
+
+def decUpload (j : Json) : Except String UploadObj := do
+  let a ← j.getArr?
+  if h : a.size = 3 then pure { filename := ← a[0].getStr?, contentType := ← a[1].getStr?, stream := ← a[2].getNat? }
+  else throw "upload object: [filename, content_type, stream] expected"
+
+def encVal : Val → Json
+  | .ref a => Json.mkObj [("ref", (a : Nat))]
+  | .imm v => encPV v
+
+def encObj : Obj → Json
+  | .list xs => Json.mkObj [("t", "list"), ("v", .arr (xs.map encVal).toArray)]
+  | .dict kvs => Json.mkObj [("t", "dict"), ("v", .arr (kvs.map fun (k, v) => Json.arr #[.str k, encVal v]).toArray)]
+
+def encOHeap (h : OHeap) : Json :=
+  Json.mkObj [("hdrs", .arr (h.hdrs.map encStrPairs).toArray), ("objs", .arr (h.objs.map encObj).toArray)]
+
+def encFiles (fs : List (String × Option (String × Nat × String))) : Json :=
+  .arr (fs.map fun (name, t) => Json.arr #[.str name, match t with
+    | some (fn, st, ct) => Json.arr #[.str fn, (st : Nat), .str ct]
+    | none => .null]).toArray
+
 def optNat (j : Json) (k : String) : Except String (Option Nat) := do
   match ← field j k with
   | .null => pure none
@@ -153,6 +194,46 @@ def handle (j : Json) : Except String Json := do
     let whole := runSeqH heap steps
     pure (Json.mkObj [("steps", .arr out), ("final_heap", encHeap whole.1),
       ("requests", .arr (whole.2.map fun r => match r with | some r => encRequest r | none => .null).toArray)])
+  | "sequenceO" =>
+    -- the same on OBJECTS: the `variables` arguments are addresses of dict objects in one store of list/dict
+    -- objects (nested containers by reference, aliased in any pattern), Uploads are objects with attributes
+    let hdrs ← (← (← field j "hdrs").getArr?).toList.mapM decStrPairs
+    let objs ← (← (← field j "objs").getArr?).toList.mapM decObj
+    let ups ← (← (← field j "ups").getArr?).toList.mapM decUpload
+    let fuel ← fieldNat j "fuel"
+    let heap : OHeap := { hdrs := hdrs, objs := objs, ups := ups }
+    let steps ← (← (← field j "steps").getArr?).toList.mapM fun sj => do
+      let kind ← decKind (← fieldStr sj "kind")
+      let cl : Client := { kind := kind, url := ← fieldStr sj "url", tracer := ← fieldBool sj "tracer" }
+      let opName ← match ← field sj "opName" with
+        | .null => pure none
+        | v => do pure (some (← v.getStr?))
+      let c : HCall := { query := ← fieldStr sj "query", opName := opName, variables := ← optNat sj "variables",
+                         headers := ← optNat sj "headers", kwargs := ← decJPairs (← field sj "kwargs") }
+      pure (cl, c)
+    let mut out : Array Json := #[]
+    for k in [0:steps.length] do
+      let pre := steps.take k
+      let hBefore := (runSeqO fuel heap pre).1
+      match steps[k]? with
+      | none => pure ()
+      | some (cl, c) =>
+        let flags := match hBefore.call? fuel c with
+          | some call => [("valid", Json.bool (validCall call)),
+                          ("trigContentTypeCase", Json.bool (trigContentTypeCase call)),
+                          ("trigUploadInModelBelowDict", Json.bool (trigUploadInModelBelowDict call))]
+          | none => []
+        match executeO fuel cl hBefore c with
+        | .ok cl' h' r fs =>
+          out := out.push (Json.mkObj ([("request", encRequest r), ("client_unchanged", Json.bool (decide (cl' = cl))),
+            ("heap", encOHeap h'), ("files", encFiles fs)] ++ flags))
+        | .illFormed => out := out.push (Json.mkObj [("request", .null), ("illFormed", true)])
+    let whole := runSeqO fuel heap steps
+    pure (Json.mkObj [("steps", .arr out), ("final_heap", encOHeap whole.1),
+      ("requests", .arr (whole.2.map fun r => match r with | some r => encRequest r | none => .null).toArray)])
+  | "uploadEq" =>
+    -- `x is y or x == y` for the Upload objects at addresses a, b (what `obj in files_list` / `.index` use)
+    pure (Json.mkObj [("eq", Json.bool (uploadEq (← fieldNat j "a") (← fieldNat j "b")))])
   | _ => throw s!"unknown op {op}"
 
 def main : IO Unit := Ariadne.Wire.loop handle
